@@ -96,7 +96,7 @@ ArmLSWord(w, dx) ==
       mbad == A = 1 /\ m = 15
   IN IF tvar
      THEN LS(nm \o "T" \o (IF A = 0 THEN "_A1" ELSE "_A2"), load, size, FALSE, t, n, FALSE, U = 1, TRUE, off, TRUE, FALSE,
-             n = 15 \/ n = t \/ mbad \/ (t = 15 /\ ~(B = 0 /\ ~load)) \/ dx.hyp)
+             n = 15 \/ n = t \/ mbad \/ (t = 15 /\ ~(B = 0 /\ ~load)) \/ dx.hyp \/ (A = 1 /\ dx.arch < 6 /\ m = n))
      ELSE IF load /\ n = 15 /\ A = 0
      THEN LS(nm \o "_lit_A1", TRUE, size, FALSE, t, 15, TRUE, U = 1, FALSE, off, FALSE, TRUE,
              P = 0 \/ W = 1 \/ (B = 1 /\ t = 15))
